@@ -282,6 +282,9 @@ func (c *Chain) buildTxEntry(h uint32, e *SEntry, rng *rand.Rand) (*ff.Entry, *I
 	var content string
 	if e.Content != "" {
 		content = e.Content
+		for name, kk := range c.Keys.ByName { // ${NAME} -> human readable address
+			content = strings.Replace(content, "${"+name+"}", kk.FA.String(), -1)
+		}
 		in.Canon = false
 	} else {
 		var ins []InTx
